@@ -91,28 +91,11 @@ class Oracle:
                 self.rehanded.add(k)
 
     def check_ask(self, op, out):
-        """ask returns distinct points."""
-        ks = [self.ad.key(self.ad.point(p)) for p in out[1]]
-        dup = [k for i, k in enumerate(ks) if k in ks[:i]]
-        if not dup:
-            return
-        if G.base_kind(self.spec) == "Avg1D" and any(self._is_unevaluated_bound(k) for k in dup):
-            self.err(SIG_F25, f"{G.spec_name(self.spec)}: {G.short(op)} returned {G.short(dup[0])} {ks.count(dup[0])} times: a bound whose "
-                              f"sample is only pending is offered again (_missing_bounds looks for the bare abscissa among (seed, x) tuples)")
-            self.stop = True
-            return
-        if G.base_kind(self.spec) == "Avg1D" and not any(self._is_unevaluated_bound(k) for k in dup):
-            # second mechanism of the same family, NOT a listed finding (candidate C10:F26): _ask_for_more_samples numbers the
-            # seeds from the evaluated count, so a BalancingLearner asking its child one point at a time gets the same
-            # (seed, x) again while that sample is only pending.  Left undecided here; see the builder's notes.
-            return
-        name = G.spec_name(self.spec)
-        if G.base_kind(self.spec) == "LND" and self.no_tri_leaf:
-            self.err(SIG_F24, f"{name}: {G.short(op)} returned the point {G.short(dup[0])} {ks.count(dup[0])} times "
-                              f"(random point of a child without triangulation, RNG rolled back)")
-            self.stop = True
-            return
-        self.err(sig(self.spec, "ask-distinct"), f"{name}: {G.short(op)} returned the point {G.short(dup[0])} {ks.count(dup[0])} times")
+        """Nothing to check: C10 does not demand that one ask returns distinct points (C02, C04, C16 and C17 state
+        that for the learners they cover).  An earlier version compared the answer for duplicates and raised
+        'ask-distinct' / F25 (AverageLearner1D re-offers a bound whose sample is only pending): that demanded
+        more than the property says and was removed as a false alarm (DESIGN 13.16)."""
+        return
 
     def _is_unevaluated_bound(self, k):
         if self.spec["kind"] == "Bal":
